@@ -96,6 +96,9 @@ func (x *Exec) oblige(st *State, kind, name, goal string, pos ast.Node) *Obligat
 		full = fmt.Sprintf("%s~%d", full, n)
 	}
 	o := &Obligation{Name: full, Kind: kind, PC: append([]string(nil), st.pc...), Goal: goal, Unit: x.unit.Name, Expect: "unsat", Info: map[string]string{"path": strings.Join(st.trace, " ")}}
+	if st.approx != "" {
+		o.Info["approx"] = st.approx
+	}
 	if pos != nil {
 		o.Pos = x.prog.pos(pos)
 	}
@@ -1115,6 +1118,7 @@ func (x *Exec) forStmt(st *State, s *ast.ForStmt, fr *frame, k func(*State)) {
 			}
 		}
 		x.havocLoop(st, s, nil)
+		x.noteLoopApprox(st, s, spec)
 		if spec != nil {
 			for _, inv := range spec.Invs {
 				st.assume(x.cxBool(st, inv.Expr, x.entry, nil))
@@ -1187,6 +1191,7 @@ func (x *Exec) rangeStmt(st *State, s *ast.RangeStmt, fr *frame, k func(*State))
 			}
 		}
 		x.havocLoop(st, s.Body, nil)
+		x.noteLoopApprox(st, s.Body, spec)
 		idx := x.d.fresh("ridx", "Int")
 		st.assume(fmt.Sprintf("(and (<= 0 %s) (<= %s (s_len %s)))", idx, idx, sl.S))
 		if spec != nil {
@@ -1926,4 +1931,19 @@ func (x *Exec) runDefers(st *State, k func(*State)) {
 		}
 	}
 	k(st)
+}
+
+// noteLoopApprox: a loop that assigns variables or writes the heap and has no invariant is executed with the invariant
+// `true`; whatever follows it on the path is an over-approximation, so a `sat` there is a failed proof, not a counterexample.
+func (x *Exec) noteLoopApprox(st *State, s ast.Stmt, spec *LoopSpec) {
+	if spec != nil && len(spec.Invs) > 0 {
+		return
+	}
+	vars, heap := x.assignedIn(s)
+	if len(vars) == 0 && !heap {
+		return
+	}
+	if st.approx == "" {
+		st.approx = "loop without invariant at " + x.prog.pos(s)
+	}
 }
